@@ -371,7 +371,7 @@ func TestC10(t *testing.T) {
 	defer r.Close()
 	r.Meta(vc.Meta{
 		Level:       "exploration",
-		Rule:        "case = one scenario with metadata_keys configured (mixed-case key sets; single / multi-valued / absent / empty values; limits 0,1,2,5; simultaneous first arrivals of distinct combinations with a hook delay between the shard-map miss and the lock). Oracle per export: all uids come from requests with one identical combination of values for the configured keys (case-insensitive), and client.FromContext(ctx).Metadata of the export call agrees with it on every configured key; refused calls carry a permanent error and none of their uids is exported; distinct admitted combinations <= limit; the admission history {Consume(combo) -> admitted|refused, call/return stamps from the log's sequence counter} is checked with porcupine against a set with capacity metadata_cardinality_limit (one history per scenario, <= 40 operations, 2-minute checker timeout => inconclusive). Layers: bubble and real-time stress under -race. Non-trivial = >=2 distinct combinations in the scenario. Distinct = (config, combination sequence).",
+		Rule:        "case = one scenario with metadata_keys configured (mixed-case key sets; single / multi-valued / absent / empty values; limits 0,1,2,5; simultaneous first arrivals of distinct combinations with a hook delay between the shard-map miss and the lock). Oracle per export: all uids come from requests with one identical combination of values for the configured keys (case-insensitive), and client.FromContext(ctx).Metadata of the export call agrees with it on every configured key; refused calls carry a permanent error and none of their uids is exported; distinct admitted combinations <= limit; the admission history {Consume(combo) -> admitted|refused, call/return stamps from the log's sequence counter} is checked with porcupine against a set with capacity metadata_cardinality_limit (one history per scenario, <= 40 operations, 2-minute checker timeout => inconclusive). Layers: bubble; first-arrival-race (k callers bring the same new combination at one virtual instant and all miss the lock-free lookup, then further new combinations arrive from >=2 distinct contexts each, so that their merged batches are exported under the shard's own context); overlimit-hammer (limit filled by calls that returned, then 8 goroutines x 12,000-20,000 over-limit calls, each of which must be refused permanently and export nothing); real-time stress under -race. Non-trivial = >=2 distinct combinations in the scenario. Distinct = (config, combination sequence).",
 		Assumptions: bpAssumptions,
 		Gates: map[string]map[string]int{
 			"quick":    {"scenarios": 400, "admission_histories_checked_with_porcupine": 400, "refused_calls": 100, "batches_checked": 2000, "hammer_calls_refused_permanently": 500000},
@@ -407,6 +407,43 @@ func TestC10(t *testing.T) {
 		runBubble(t, func() { _, err = run.Exec() })
 		post(c, run, err)
 		if c.Idx < 40 {
+			c.Sample(sc.Describe())
+		}
+	})
+	// racing first arrivals: k callers bring the SAME new combination at the same virtual instant (all of
+	// them miss the lock-free lookup: the hook between the miss and the lock holds them back), then, one
+	// after the other, further new combinations arrive, each from >=2 distinct request contexts whose
+	// items merge into one batch (which is therefore exported under the shard's own context)
+	r.Layer("first-arrival-race", e.Pick(60, 1200), func(c *vc.Case) {
+		sig := Signal(c.R.IntN(3))
+		sc := &Scenario{Sig: sig, HookSeed: c.R.Uint64(), Shutdown: c.R.IntN(2)}
+		sc.Cfg = Cfg{SendBatchSize: 2, Timeout: []time.Duration{time.Second, 5 * time.Millisecond}[c.R.IntN(2)], MetadataKeys: []string{"tenant"},
+			CardLimit: []uint32{0, 0, 8}[c.R.IntN(3)], EarlyReturn: c.R.IntN(2) == 0, MaxConcurrency: []uint32{0, 1, 2}[c.R.IntN(3)]}
+		res := func() []ResSpec {
+			if sig == Metrics {
+				return []ResSpec{{Scopes: []ScopeSpec{{Metrics: []MetricSpec{{Kind: 1 + c.R.IntN(5), Points: 1}}}}}}
+			}
+			return []ResSpec{{Scopes: []ScopeSpec{{Items: 1}}}}
+		}
+		caller := 0
+		waves := 3 + c.R.IntN(3)
+		for w := 0; w < waves; w++ {
+			k := 2 + c.R.IntN(3)
+			for i := 0; i < k; i++ {
+				sc.Reqs = append(sc.Reqs, &ReqSpec{Caller: caller, Req: 0, At: time.Duration(w) * time.Millisecond, CtxGroup: -1, CancelAt: -1, Deadline: -1,
+					Meta: map[string][]string{"tenant": {fmt.Sprintf("w%d", w)}}, Res: res()})
+				caller++
+			}
+		}
+		sc.Latency = []time.Duration{pickD(c.R, 0, 100*time.Microsecond)}
+		sc.HookDelays = map[string][]time.Duration{"multi.miss_before_lock": {time.Microsecond, 2 * time.Microsecond, time.Nanosecond}}
+		sc.Label = fmt.Sprintf("first-arrival-race-waves%d", waves)
+		run := NewRun(sc, c.R.Uint64())
+		var err error
+		runBubble(t, func() { _, err = run.Exec() })
+		post(c, run, err)
+		c.Count("racing_first_arrival_waves", int64(waves))
+		if c.Idx < 6 {
 			c.Sample(sc.Describe())
 		}
 	})
@@ -704,7 +741,8 @@ func TestC18(t *testing.T) {
 				q.TraceGroup = 1 // all contributors are siblings within one trace
 			}
 		}
-		sc.Label = fmt.Sprintf("merge-n%d-mode%d-pos%d-sametrace%v", n, mode, pos, (c.Idx/4)%2 == 1)
+		sc.EndSpans = (c.Idx/8)%2 == 1 // callers end their span as soon as their (early-return) call comes back
+		sc.Label = fmt.Sprintf("merge-n%d-mode%d-pos%d-sametrace%v-endspans%v", n, mode, pos, (c.Idx/4)%2 == 1, sc.EndSpans)
 		run := NewRun(sc, c.R.Uint64())
 		var err error
 		runBubble(t, func() { _, err = run.Exec() })
@@ -742,7 +780,8 @@ func TestC18(t *testing.T) {
 						sc.Reqs[i].Deadline = latency/2 + time.Millisecond - sc.Reqs[i].At
 					}
 				}
-				sc.Label = fmt.Sprintf("subset-n%d-%s-mask%b", n, kind, mask)
+				sc.EndSpans = (c.Idx/3)%2 == 1 // a caller that gave up ends its span while its items are still pending
+				sc.Label = fmt.Sprintf("subset-n%d-%s-mask%b-endspans%v", n, kind, mask, sc.EndSpans)
 				run := NewRun(sc, c.R.Uint64())
 				var err error
 				runBubble(t, func() { _, err = run.Exec() })
